@@ -54,8 +54,24 @@ def operator_op(case, rng):
         h = rng.choice(["h1", "h2"])
         db.StorageNode.update(host=h).where(db.StorageNode.id == n.id).execute()
         return f"node {n.name} host -> {h}"
+    if getattr(case, "hsm", False) and rng.random() < 0.25:
+        st = case.lfs_load()
+        k = rng.random()
+        if k < 0.4:
+            n_ = case.hsm_progress()
+            return f"tape system: {n_} restore(s) completed"
+        if k < 0.6:
+            st["fail"] = {rng.choice(["hsm_state", "hsm_restore", "hsm_action"]): rng.randint(1, 2)}
+            case.lfs_save(st)
+            return f"lfs fault armed: {st['fail']}"
+        res = [p_ for p_, v in st["paths"].items() if v == "restored"]
+        if res:
+            p_ = rng.choice(res)
+            st["paths"][p_] = "released"        # released by the site's own policy engine, behind alpenhorn's back
+            case.lfs_save(st)
+            return f"tape system: {os.path.basename(p_)} released from disk"
     if r < 0.37:
-        n = rng.choice(nodes)
+        n = rng.choice([x for x in nodes if x.io_class != "LustreHSM"] or nodes)
         p = os.path.join(n.root, "ALPENHORN_NODE")
         st = rng.choice(["ok", "missing", "other"])
         if st == "missing":
@@ -117,10 +133,10 @@ def operator_op(case, rng):
     return f"import request {f.acq.name}/{f.name} on {n.name}"
 
 
-def run_history(ctx, e, rng, nsteps, on_step=None, conc=False, churn=False):
+def run_history(ctx, e, rng, nsteps, on_step=None, conc=False, churn=False, hsm=None, keep_open=False):
     """returns (case, problems07, problems08, log)"""
     import pathlib
-    case = dharness.DWorld(e, rng, churn=churn)
+    case = dharness.DWorld(e, rng, churn=churn, hsm=hsm)
     db = case.w.db
     case.precompleted = set(r.id for r in db.ArchiveFileCopyRequest.select().where(db.ArchiveFileCopyRequest.completed == 1))
     case.set_tools(rng.choice(["rsync-only", "both", "none"]), "ok")
@@ -226,7 +242,7 @@ def run_history(ctx, e, rng, nsteps, on_step=None, conc=False, churn=False):
         # with two workers a check and a transfer of the same pass may finish in either order: re-derive taint conservatively
         judge(host, bt, bc, ("tasks-2-workers", host, ran))
 
-    def do_task(host):
+    def do_task(host, poll_deferred=False):
         """run one queued task of `host`; returns False when nothing was runnable"""
         bt, bc = case.all_trees(), case.copies()
         e.set_host(host)
@@ -244,6 +260,11 @@ def run_history(ctx, e, rng, nsteps, on_step=None, conc=False, churn=False):
             pathlib.Path.unlink = failing_unlink
         try:
             res = case.run_task(host)
+            if res is None and poll_deferred and case.daemons[host].queue.deferred_size:
+                # time passes: a task that deferred itself (waiting for an HSM restore) polls once
+                q = case.daemons[host].queue
+                q._deferrals = [(k * 1e-9, *d[1:]) for k, d in enumerate(q._deferrals)]
+                res = case.run_task(host)
         except Exception as ex:  # noqa
             if not fired:     # an exception caused by the injected I/O error stops the daemon like a crash would (C09's subject)
                 p8.append(f"a task on {host} raised {type(ex).__name__}: {ex}")
@@ -270,7 +291,7 @@ def run_history(ctx, e, rng, nsteps, on_step=None, conc=False, churn=False):
             elif r < 0.48:
                 do_iterate(host)
             elif r < 0.70:
-                do_task(host)
+                do_task(host, poll_deferred=True)
             elif conc and r < 0.9:
                 do_concurrent_pass(host)
             else:
@@ -280,11 +301,14 @@ def run_history(ctx, e, rng, nsteps, on_step=None, conc=False, churn=False):
                     if not do_task(host):
                         if case.daemons[host].queue.deferred_size:
                             q = case.daemons[host].queue
-                            q._deferrals = [(0, *d[1:]) for d in q._deferrals]
+                            q._deferrals = [(k * 1e-9, *d[1:]) for k, d in enumerate(q._deferrals)]
                             continue
                         break
-    finally:
+    except BaseException:
         case.close()
+        raise
+    if not keep_open:
+        case.close()         # the caller of keep_open=True goes on with the same daemon processes and closes them itself
     os.environ["PATH"] = "/usr/local/bin:/usr/bin:/bin"
     return case, p7, p8, log
 
